@@ -486,6 +486,14 @@ func GenCase(r *common.Rng) Case {
 // a RAM code section (execution mode hy / vn) whose sections share opcodes, and ROM / RAM data
 // sections whose sizes straddle the powers of two (code + data = 2^k-1, 2^k, 2^k+1).
 func GenExtCase(r *common.Rng) Case {
+	switch r.Intn(8) {
+	case 0, 1:
+		return GenSoCase(r)
+	case 2, 3:
+		return GenUnfitCase(r)
+	case 4, 5:
+		return GenDataCase(r)
+	}
 	rsize := []int{8, 16, 32}[r.Intn(3)]
 	var b strings.Builder
 	c := Case{}
@@ -548,6 +556,219 @@ func GenExtCase(r *common.Rng) Case {
 		fmt.Fprintf(&b, "%%meta ioatt xo%d cp:cpu, type:output, index:%d\n%%meta ioatt xo%d cp:bm, type:output, index:%d\n", o, o, o, o)
 	}
 	b.WriteString("%meta bmdef global registersize:" + strconv.Itoa(rsize) + "\n")
+	c.Text = b.String()
+	return c
+}
+
+// ---- shared objects ------------------------------------------------------------------------------
+
+type soKind struct {
+	kind, constraint, short string
+	ops                     []string // instruction templates: %s = object operand (short+index), %r = a register
+}
+
+var soKinds = []soKind{
+	{"queue", "queue:8", "q", []string{"mov %s, %r", "r2q %r, %s", "mov %r, %s", "q2r %r, %s"}},
+	{"stack", "stack:4", "st", []string{"mov %s, %r", "mov %r, %s"}},
+	{"kbd", "kbd:4", "k", []string{"mov %r, %s"}},
+	{"lfsr8", "lfsr8:7", "lfsr8", []string{"mov %r, %s"}},
+	{"uart", "uart:115200:8", "u", []string{"mov %s, %r", "mov %r, %s"}},
+	{"vtextmem", "vtextmem:0:0:0:8:4", "vtm", []string{"mov %s:3, %r"}},
+}
+
+// GenSoCase: 2..3 processors sharing objects of every kind the front-end can declare (`sodef` /
+// `soatt`), each processor using the objects attached to it.  Processor names come in any
+// alphabetical relation to the order in which objects are attached.
+func GenSoCase(r *common.Rng) Case {
+	c := Case{Kind: "ext:so"}
+	rsize := []int{8, 16, 32}[r.Intn(3)]
+	ncp := 2 + r.Intn(2)
+	names := []string{"cpa", "cpb", "cpc", "zz", "m0"}
+	for i := len(names) - 1; i > 0; i-- {
+		j := r.Intn(i + 1)
+		names[i], names[j] = names[j], names[i]
+	}
+	names = names[:ncp]
+	nso := 1 + r.Intn(4)
+	type so struct {
+		name string
+		k    soKind
+	}
+	sos := []so{}
+	for i := 0; i < nso; i++ {
+		sos = append(sos, so{fmt.Sprintf("so%d", i), soKinds[r.Intn(len(soKinds))]})
+	}
+	// attachments: per processor, an ordered list of object ids (some processors may have none)
+	att := make([][]int, ncp)
+	for i := range sos {
+		n := 0
+		for cpi := 0; cpi < ncp; cpi++ {
+			if r.Chance(1, 2) {
+				att[cpi] = append(att[cpi], i)
+				n++
+			}
+		}
+		if n == 0 {
+			cpi := r.Intn(ncp)
+			att[cpi] = append(att[cpi], i)
+		}
+	}
+	var b strings.Builder
+	b.WriteString("%meta bmdef global registersize:" + strconv.Itoa(rsize) + "\n")
+	for cpi := 0; cpi < ncp; cpi++ {
+		fmt.Fprintf(&b, "%%section sec%d .romtext iomode:async\n\tentry _start\n_start:\n\trset r0, %s\n", cpi, genLiteral(r, 8))
+		perKind := map[string]int{}
+		for _, id := range att[cpi] {
+			k := sos[id].k
+			operand := k.short + strconv.Itoa(perKind[k.kind])
+			perKind[k.kind]++
+			for n := 1 + r.Intn(2); n > 0; n-- {
+				t := pick(r, k.ops)
+				t = strings.ReplaceAll(strings.ReplaceAll(t, "%s", operand), "%r", "r"+strconv.Itoa(r.Intn(3)))
+				b.WriteString("\t" + t + "\n")
+			}
+		}
+		b.WriteString("\tinc r1\n\tmov o0, r1\n\tj _start\n%endsection\n")
+	}
+	for _, s := range sos {
+		fmt.Fprintf(&b, "%%meta sodef %s constraint:%s\n", s.name, s.k.constraint)
+	}
+	for cpi := 0; cpi < ncp; cpi++ {
+		fmt.Fprintf(&b, "%%meta cpdef %s romcode:sec%d\n", names[cpi], cpi)
+	}
+	for cpi := 0; cpi < ncp; cpi++ {
+		for idx, id := range att[cpi] {
+			fmt.Fprintf(&b, "%%meta soatt %s cp:%s, index:%d\n", sos[id].name, names[cpi], idx)
+		}
+		fmt.Fprintf(&b, "%%meta ioatt out%d cp:%s, type:output, index:0\n%%meta ioatt out%d cp:bm, type:output, index:%d\n", cpi, names[cpi], cpi, cpi)
+	}
+	c.Text = b.String()
+	return c
+}
+
+// ---- operands that cannot fit, of every kind the front-end produces ------------------------------
+
+// GenUnfitCase: one processor whose word has slack (an rset with a wide immediate) and one operand
+// that does not fit its field: ROM / RAM address beyond 2^O / 2^L, shared-object index beyond the
+// attached objects, an object kind that is not attached, a port index that wraps the 8-bit port
+// count, a text-memory position beyond its 8-bit field.  The tool must reject every one of them.
+func GenUnfitCase(r *common.Rng) Case {
+	c := Case{MustFail: true}
+	rsize := []int{8, 16, 32}[r.Intn(3)]
+	nfill := r.Intn(4) // 4..7 instructions: O = 2 or 3
+	nram := 1 + r.Intn(6)
+	lbits := 1
+	for (1 << uint(lbits)) < nram {
+		lbits++
+	}
+	nlines := 4 + nfill
+	obits := 1
+	for (1 << uint(obits)) < nlines {
+		obits++
+	}
+	over := func(bits int) int { return (1 << uint(bits)) + r.Intn(1<<uint(bits)) + (r.Intn(2) << uint(bits+1)) }
+	var bad string
+	switch r.Intn(8) {
+	case 0:
+		c.Kind = "unfit:romaddr"
+		bad = "mov r0, rom:" + strconv.Itoa(over(obits))
+	case 1:
+		c.Kind = "unfit:ramaddr-read"
+		bad = "mov r0, ram:" + strconv.Itoa(over(lbits))
+	case 2:
+		c.Kind = "unfit:ramaddr-write"
+		bad = "mov ram:" + strconv.Itoa(over(lbits)) + ", r0"
+	case 3:
+		c.Kind = "unfit:soindex"
+		bad = pick(r, []string{"mov r0, q1", "mov q2, r0", "mov r0, q3"})
+	case 4:
+		c.Kind = "unfit:sokind"
+		bad = pick(r, []string{"mov r0, k0", "mov st0, r0", "mov r0, u0", "mov r0, lfsr80"})
+	case 5:
+		c.Kind = "unfit:port"
+		bad = pick(r, []string{"mov r0, i255", "mov r0, i256", "mov o256, r0", "mov o255, r0"})
+	case 6:
+		c.Kind = "unfit:vtmpos"
+		bad = "mov vtm0:" + strconv.Itoa(256+r.Intn(300)) + ", r0"
+	case 7:
+		c.Kind = "unfit:immediate-wide"
+		bad = "rset r0, " + strconv.FormatUint((uint64(1)<<uint(rsize))+uint64(r.Intn(7)), 10)
+	}
+	var b strings.Builder
+	b.WriteString("%meta bmdef global registersize:" + strconv.Itoa(rsize) + "\n")
+	b.WriteString("%section code1 .romtext iomode:async\n\tentry _start\n_start:\n")
+	lines := []string{"rset r1, " + strconv.Itoa(128+r.Intn(128)), bad, "mov o0, r0"}
+	for i := 0; i < nfill; i++ {
+		lines = append(lines, pick(r, []string{"inc r1", "dec r1", "add r1, r0", "clr r0"}))
+	}
+	lines = append(lines, "j _start")
+	for _, l := range lines {
+		b.WriteString("\t" + l + "\n")
+	}
+	b.WriteString("%endsection\n%section d1 .ramdata\n\tw1 db ")
+	vals := make([]string, nram)
+	for i := range vals {
+		vals[i] = fmt.Sprintf("0x%02x", r.Intn(256))
+	}
+	b.WriteString(strings.Join(vals, ", ") + "\n%endsection\n")
+	b.WriteString("%meta sodef fifo constraint:queue:8\n%meta sodef vid constraint:vtextmem:0:0:0:8:4\n")
+	b.WriteString("%meta cpdef cpu romcode:code1, ramdata:d1\n%meta soatt fifo cp:cpu, index:0\n%meta soatt vid cp:cpu, index:1\n")
+	b.WriteString("%meta ioatt out0 cp:cpu, type:output, index:0\n%meta ioatt out0 cp:bm, type:output, index:0\n")
+	c.Text = b.String()
+	return c
+}
+
+// ---- data sections whose addresses the program uses -----------------------------------------------
+
+// GenDataCase: one processor with a ROM data section (plain `db`, repeated `N:db`, several
+// variables) and a program that loads the address of a variable (`mov rK, rom:name`), walks a few
+// cells (`inc`) and reads them (`mov rJ, rom:[rK]`), sending what it reads to its outputs.
+func GenDataCase(r *common.Rng) Case {
+	c := Case{Kind: "ext:data"}
+	rsize := []int{8, 16, 32}[r.Intn(3)]
+	type dvar struct {
+		name string
+		rep  int
+		vals []int
+	}
+	nv := 2 + r.Intn(3)
+	vars := []dvar{}
+	for i := 0; i < nv; i++ {
+		v := dvar{name: fmt.Sprintf("v%d", i), rep: 1}
+		if r.Chance(1, 2) {
+			v.rep = 2 + r.Intn(3)
+		}
+		for n := 1 + r.Intn(3); n > 0; n-- {
+			v.vals = append(v.vals, 1+r.Intn(254))
+		}
+		vars = append(vars, v)
+	}
+	var b strings.Builder
+	b.WriteString("%meta bmdef global registersize:" + strconv.Itoa(rsize) + "\n")
+	b.WriteString("%section code1 .romtext iomode:async\n\tentry _start\n_start:\n")
+	for n := 2 + r.Intn(3); n > 0; n-- {
+		v := vars[r.Intn(len(vars))]
+		cells := v.rep * len(v.vals)
+		b.WriteString("\tmov r0, rom:" + v.name + "\n")
+		for k := r.Intn(cells); k > 0; k-- {
+			b.WriteString("\tinc r0\n")
+		}
+		b.WriteString("\tmov r1, rom:[r0]\n\tmov o0, r1\n")
+	}
+	b.WriteString("\tj _start\n%endsection\n%section data1 .romdata\n")
+	for _, v := range vars {
+		hs := make([]string, len(v.vals))
+		for i, x := range v.vals {
+			hs[i] = fmt.Sprintf("0x%02x", x)
+		}
+		op := "db"
+		if v.rep > 1 {
+			op = strconv.Itoa(v.rep) + ":db"
+		}
+		b.WriteString("\t" + v.name + " " + op + " " + strings.Join(hs, ", ") + "\n")
+	}
+	b.WriteString("%endsection\n%meta cpdef cpu romcode:code1, romdata:data1\n")
+	b.WriteString("%meta ioatt out0 cp:cpu, type:output, index:0\n%meta ioatt out0 cp:bm, type:output, index:0\n")
 	c.Text = b.String()
 	return c
 }
